@@ -113,7 +113,7 @@ func applyReal(m *rig.Machine, e event) {
 }
 
 func run(c *rig.Ctx) {
-	c.Require("transitions", "states", "probes_both_selected_with_button_held", "opposite_direction_presses", "sequence_cases")
+	c.Require("transitions", "states", "probes_both_selected_with_button_held", "opposite_direction_presses", "sequence_cases", "change_runs", "neighbour_stores")
 	events := allEvents()
 	// BFS over the reference from power-on. The real controller powers on with both select
 	// bits reading 0 (JOYP = CF), which is the reference state sel=00.
@@ -367,6 +367,96 @@ func run(c *rig.Ctx) {
 			}
 		}
 		c.Case(rig.Hash(uint64(i), r.U64()))
+	})
+	// Round 10: (a) long runs of changes with NO read in between, of every length 1..1100 (and, in the
+	// thorough tier, up to 70000: 8- and 16-bit counters of changes wrap inside these lengths), each
+	// run bracketed by a read before and a read after under every select value; (b) a store of the
+	// same value to another address (work RAM, OAM, VRAM, a cartridge register, other I/O registers and
+	// high RAM, including addresses whose low byte is 00) directly before the JOYP store.
+	nlen := c.N(1100, 70000)
+	c.Part("change-runs", nlen, func(i int64, r *rig.Rng) {
+		m := rig.MustNew(rom, rig.Opts{})
+		for t := 0; t < 4; t++ {
+			m.Step()
+		}
+		cur := jstate{}
+		// bring the machine to a random state, then read (a cache would be filled here)
+		for k := 0; k < 6; k++ {
+			e := events[r.Intn(len(events))]
+			applyReal(m, e)
+			cur = cur.apply(e)
+		}
+		if got := m.Mem.Read(0xff00); got != cur.read() {
+			c.Violate("change-run-"+classOf(cur), fmt.Sprintf("before the run: JOYP=%02X want %02X", got, cur.read()), nil)
+			return
+		}
+		n := int(i) + 1
+		mode := int(i>>0) % 3 // 0 key events only, 1 select stores only, 2 mixed
+		for k := 0; k < n; k++ {
+			var e event
+			switch {
+			case mode == 0 || (mode == 2 && r.Chance(1, 2)):
+				e = events[r.Intn(16)]
+			default:
+				e = event{write: true, val: r.U8()}
+			}
+			applyReal(m, e)
+			cur = cur.apply(e)
+		}
+		for _, q := range []uint8{0xff, 0x00, 0x10, 0x20, 0x30} {
+			if q != 0xff {
+				m.Mem.Write(0xff00, q)
+				cur.sel = q
+			}
+			if got := m.Mem.Read(0xff00); got != cur.read() {
+				c.Violate("change-run-"+classOf(cur), fmt.Sprintf("read, then %d changes (mode %d) with no JOYP read, then select %02X: JOYP=%02X want %02X", n, mode, cur.sel, got, cur.read()), nil)
+				return
+			}
+		}
+		c.Count("change_runs", 1)
+		c.Case(rig.Hash(0xc22a, uint64(i)))
+	})
+	others := []uint16{0xc000, 0xc100, 0xd000, 0xdf00, 0xc0ff, 0x8000, 0x9800, 0x9c00, 0x2000, 0x4000, 0x6000, 0x0000, 0xa000,
+		0xff80, 0xfffe, 0xff01, 0xff06, 0xff42, 0xff43, 0xff47, 0xff4a, 0xff4b, 0xff05, 0xc001, 0xe000}
+	c.Part("neighbour-stores", int64(len(others))*256, func(i int64, r *rig.Rng) {
+		addr := others[i/256]
+		v := uint8(i % 256)
+		m := rig.MustNew(rom, rig.Opts{})
+		for t := 0; t < 4; t++ {
+			m.Step()
+		}
+		cur := jstate{}
+		for k := 0; k < 4; k++ {
+			e := events[r.Intn(16)]
+			applyReal(m, e)
+			cur = cur.apply(e)
+		}
+		// select bits different from v's first, so that the JOYP store must be seen to act
+		pre := ^v & 0x30
+		m.Mem.Write(0xff00, pre)
+		cur.sel = pre
+		if got := m.Mem.Read(0xff00); got != cur.read() {
+			c.Violate("neighbour-store-"+classOf(cur), fmt.Sprintf("select %02X: JOYP=%02X want %02X", pre, got, cur.read()), nil)
+			return
+		}
+		m.Mem.Write(addr, v)
+		m.Mem.Write(0xff00, v)
+		cur.sel = v & 0x30
+		if got := m.Mem.Read(0xff00); got != cur.read() {
+			c.Violate("neighbour-store-"+classOf(cur), fmt.Sprintf("store of %02X to %04X, then the same value to JOYP: JOYP=%02X want %02X", v, addr, got, cur.read()), nil)
+			return
+		}
+		// the same JOYP store twice with a key event in between
+		e := events[r.Intn(16)]
+		applyReal(m, e)
+		cur = cur.apply(e)
+		m.Mem.Write(0xff00, v)
+		if got := m.Mem.Read(0xff00); got != cur.read() {
+			c.Violate("neighbour-store-"+classOf(cur), fmt.Sprintf("JOYP<-%02X, %s, JOYP<-%02X again: JOYP=%02X want %02X", v, e, v, got, cur.read()), nil)
+			return
+		}
+		c.Count("neighbour_stores", 1)
+		c.Case(rig.Hash(0xc22b, uint64(i)))
 	})
 	c.MarkExhaustive(fmt.Sprintf("all press/release sequences of length %d from power-on", L))
 	c.Count("reference_states", 0)
